@@ -78,6 +78,9 @@ func runC05(w *World) *Result {
 	PopRule(w, "batch", r, "R-C05-alloc")
 	r.Rule("R-C05-reg", "Batch: return / argument registers are written and read under the same stem and index, and the result of a call is copied out of the register right after the call line", 2)
 	RegisterRule(w, batch, r, "R-C05-reg")
+	r.Rule("R-C05-elemloop", "loops of the back ends that emit per element of a handed list (arguments, values, parameters) emit in every iteration", 2)
+	ElementLoopRule(w, batch, r, "R-C05-elemloop")
+	ElementLoopRule(w, bash, r, "R-C05-elemloop")
 	r.Rule("R-C05-exit", "Batch: the exit status is expanded before the local environment is dropped; a panic ends the script from any call depth", 2)
 	BatchExitRule(w, batch, r, "R-C05-exit")
 	r.Rule("R-C05-chain", "Batch: else-if and else continue the open if block", 2)
